@@ -261,6 +261,12 @@ class Interp:
                     return {"Less": -1, "Equal": 0, "Greater": 1}[v["__var"]]
                 if adt == "core::result::Result":
                     return 0 if v["__var"] == "Ok" else 1
+                a = self.F.adts.get(adt)
+                if a is not None and a["kind"] == "Enum":
+                    # field-less local enum without explicit discriminants: index of the variant
+                    names = [x["name"] for x in a["variants"]]
+                    if v["__var"] in names and all(not x["fields"] for x in a["variants"]):
+                        return names.index(v["__var"])
             raise Undecidable("discriminant of %r" % (v,))
         if k == "repeat":
             v = self.operand(rv["op"])
